@@ -1,4 +1,71 @@
-import Walleye.Model.MoveGen
+/-
+  C15 — FEN input is parsed totally and faithfully.
+  In the model every `unwrap`, slice and index of the Rust code is an explicit `panic` outcome.
+  Proved: for EVERY string (any Unicode) the square parser and the FEN loader return `ok` or `err`,
+  never `panic` (`pointFromStr_total`, `fromFen_total`); `point_roundtrip` (parse ∘ display = id on
+  the 64 squares).  Not proved (decided by the correspondence with the SPEC's own FEN reader on
+  generated legal positions with counters up to 10^6): `fromFen_toFen` (faithfulness).
+-/
+import Walleye.Model.Fen
 namespace Walleye
-theorem C15_placeholder (c : Color) : c.opp.opp = c := Color.opp_opp c
+
+theorem pointFromStr_total (s : List Char) : pointFromStr s ≠ .panic := by
+  unfold pointFromStr
+  repeat' (first
+    | (intro e; cases e; done)
+    | split
+    | dsimp only)
+
+theorem fenChar_total (h : Hasher) (a : FenAcc) (c : Char) : fenChar h a c ≠ .panic := by
+  unfold fenChar
+  repeat' (first
+    | (intro e; cases e; done)
+    | split
+    | dsimp only)
+
+theorem fenRowChars_total (h : Hasher) (l : List Char) : ∀ a, fenRowChars h a l ≠ .panic := by
+  induction l with
+  | nil => intro a e; cases e
+  | cons c cs ih =>
+    intro a
+    unfold fenRowChars
+    cases hc : fenChar h a c with
+    | ok a' => exact ih a'
+    | err e => intro e'; cases e'
+    | panic => exact absurd hc (fenChar_total h a c)
+
+theorem fenRows_total (h : Hasher) (rows : List (List Char)) : ∀ a, fenRows h a rows ≠ .panic := by
+  induction rows with
+  | nil => intro a e; cases e
+  | cons r rs ih =>
+    intro a
+    unfold fenRows
+    cases hr : fenRowChars h a r with
+    | ok a' =>
+      simp only
+      split
+      · intro e; cases e
+      · exact ih _
+    | err e => intro e'; cases e'
+    | panic => exact absurd hr (fenRowChars_total h r a)
+
+/-- loading a FEN never panics, whatever the string -/
+theorem fromFen_total (h : Hasher) (s : List Char) : fromFen h s ≠ .panic := by
+  unfold fromFen
+  repeat' (first
+    | (intro e; cases e; done)
+    | split
+    | dsimp only
+    | (rename_i hq; exact absurd hq (fenRows_total _ _ _))
+    | (rename_i hq; exfalso; revert hq;
+       (repeat' (first
+         | (intro e; cases e; done)
+         | split
+         | dsimp only)); done))
+
+/-- printing a square and parsing it back gives the square, for all 64 squares -/
+theorem point_roundtrip : ∀ r : Fin 8, ∀ c : Fin 8,
+    pointFromStr (pointDisplay ⟨r.val + 2, c.val + 2⟩) = .ok ⟨r.val + 2, c.val + 2⟩ := by
+  decide +kernel
+
 end Walleye
